@@ -116,6 +116,44 @@ def run(ck: Check):
                 cases.append(f"xlat {tcs} {enc_opt(a)} {enc_opt(b)}")
                 impl.append(out)
                 ck.count("xlat")
+    # len() queried, then the lists edited IN PLACE (append / flag flip / pop), then rmslice: no stale state
+    r2 = rng("c07-inplace")
+    for _ in range(300 if ck.tier == "quick" else 3000):
+        n = r2.randint(1, 7)
+        red = [r2.random() < 0.7 for _ in range(n)]
+        parts = [bytes([65 + i]) for i in range(n)]
+        t = mk(parts, red)
+        len(t)
+        t._slice_xlat(0, None)
+        op = r2.choice(["append", "flip", "pop", "extend"])
+        if op == "append":
+            t.parts.append(b"z"); t.reducible.append(r2.random() < 0.5)
+        elif op == "flip":
+            i = r2.randrange(n); t.reducible[i] = not t.reducible[i]
+        elif op == "pop":
+            t.parts.pop(); t.reducible.pop()
+        else:
+            t.parts.extend([b"y", b"w"]); t.reducible.extend([True, False])
+        p2, f2 = list(t.parts), list(t.reducible)
+        k2 = sum(f2)
+        a, b = r2.randint(-k2 - 1, k2 + 1), r2.randint(-k2 - 1, k2 + 1)
+        ck.count("inplace")
+        ck.nontrivial(("inplace", tuple(red), op, a, b))
+        lo, hi = clampi(k2, a), clampi(k2, b)
+        bad = None
+        if len(t) != k2:
+            bad = f"len() reports {len(t)} but {k2} parts are reducible"
+        elif lo <= hi:
+            try:
+                t.rmslice(a, b)
+                ep, er = spec_rm(p2, f2, lo, hi)
+                if t.parts != ep or t.reducible != er or len(t) != k2 - (hi - lo):
+                    bad = f"rmslice({a},{b}) gave {t.parts!r} {t.reducible!r} len {len(t)}, expected {ep!r} {er!r}"
+            except IndexError:
+                bad = f"rmslice({a},{b}) raised IndexError"
+        if bad:
+            ck.violation(f"after len() and an in-place {op} on flags {enc_bools(red)}: {bad}",
+                         {"op": "inplace-" + op, "flags": red, "a": a, "b": b})
     ck.sample({"op": "rmslice", "layout": "FTTFT", "a": 1, "b": -1,
                "impl": impl_rmslice([b"a", b"b", b"c", b"d", b"e"], [False, True, True, False, True], 1, -1)[0]})
 
